@@ -195,8 +195,31 @@ func ruleC32(c *Ctx, r *Report) {
 					errEdges[[2]int{e.If.Block().Index, e.Succ}] = true
 				}
 			}
+			// the restore may be wrapped in an unexported helper that calls it on every path (extract-method of the
+			// duplicated "roll back and wrap the error" blocks)
+			alwaysRestores := map[*ssa.Function]bool{}
+			var restoring func(cc *ssa.CallCommon, depth int) bool
+			restoring = func(cc *ssa.CallCommon, depth int) bool {
+				if restore(cc) {
+					return true
+				}
+				h := staticCallee(cc)
+				if h == nil || depth == 0 || h == fn || h.Pkg != fn.Pkg || len(h.Blocks) == 0 {
+					return false
+				}
+				if v, ok := alwaysRestores[h]; ok {
+					return v
+				}
+				alwaysRestores[h] = false
+				miss := searchExits(h, nil, h.Blocks[0], SearchOpts{Stop: func(in ssa.Instruction) bool {
+					c2 := callCommon(in)
+					return c2 != nil && restoring(c2, depth-1)
+				}})
+				alwaysRestores[h] = len(miss) == 0
+				return alwaysRestores[h]
+			}
 			exits := searchExits(fn, call, nil, SearchOpts{
-				Stop:   func(in ssa.Instruction) bool { cc := callCommon(in); return cc != nil && restore(cc) },
+				Stop:   func(in ssa.Instruction) bool { cc := callCommon(in); return cc != nil && restoring(cc, 2) },
 				EdgeOK: func(b *ssa.BasicBlock, i int) bool { return !errEdges[[2]int{b.Index, i}] },
 				ExitOK: func(in ssa.Instruction) bool {
 					ret, ok := in.(*ssa.Return)
@@ -1345,14 +1368,22 @@ func ruleC32c(c *Ctx, r *Report) {
 		if fn.Parent() != mod {
 			continue
 		}
+		// proxy calls of the goroutine, including those in function literals it hands to a (retry) helper
 		var proxyCalls []*ssa.Call
-		allInstrs(fn, func(in ssa.Instruction) {
-			if call, ok := in.(*ssa.Call); ok {
-				if f := call.Call.StaticCallee(); f != nil && f.Pkg != nil && f.Pkg.Pkg.Path() == modPath+"/cc/proxy" && errResultIndex(f.Signature) >= 0 {
-					proxyCalls = append(proxyCalls, call)
+		var gather func(f *ssa.Function)
+		gather = func(f *ssa.Function) {
+			allInstrs(f, func(in ssa.Instruction) {
+				if call, ok := in.(*ssa.Call); ok {
+					if f := call.Call.StaticCallee(); f != nil && f.Pkg != nil && f.Pkg.Pkg.Path() == modPath+"/cc/proxy" && errResultIndex(f.Signature) >= 0 {
+						proxyCalls = append(proxyCalls, call)
+					}
 				}
+			})
+			for _, a := range f.AnonFuncs {
+				gather(a)
 			}
-		})
+		}
+		gather(fn)
 		if len(proxyCalls) == 0 {
 			continue
 		}
@@ -1364,7 +1395,13 @@ func ruleC32c(c *Ctx, r *Report) {
 			n++
 			name := c.FuncName(fn)
 			from := false
+			leaves := phiLeaves(snd.X)
 			for _, l := range phiLeaves(snd.X) {
+				if hc, ok := l.(*ssa.Call); ok {
+					leaves = append(leaves, hofResultLeaves(c, hc)...)
+				}
+			}
+			for _, l := range leaves {
 				for _, pc := range proxyCalls {
 					if l == ssa.Value(pc) || l == errResultOf(pc) {
 						from = true
